@@ -550,8 +550,10 @@ def extra(tier, ctx, info, seed_value):
                                          format='ISO8601').to_pydatetime()
                 else:
                     got = datetime.datetime.strptime(text, fmt)
-            except ValueError as e:
-                bad = (text, 'cannot be parsed with %r: %s' % (fmt, e))
+            except Exception as e:     # ValueError, or re.error from an
+                # unusable format: either way the text cannot be read back
+                bad = (text, 'cannot be parsed with %r: %s: %s'
+                       % (fmt, type(e).__name__, e))
                 break
             if got != want:
                 bad = (text, 'parsed with %r as %s, written %s'
